@@ -9,7 +9,8 @@ RULE = ('histories: a pool of objects is grown by every public derivation route 
         'identity facts (config / status / callbacks objects, np.shares_memory of buffers) are compared with the allocation table of the model Alias.v; input containers (list, tuple, nested list, ndarray, lists of bin/hex strings) are compared before/after construction; '
         'every invalid configuration value is tried through attribute assignment, constructor keyword and Config.update. Non-trivial = the history contains a flag-raising or config-changing mutation after a derivation; distinct by full history.')
 ASSUMPTIONS = ['copy(), .T, flatten(), fxp_like() are documented shallow copies and outside the statement', 'Python reference semantics (is, ndarray views) are taken from the interpreter']
-ROUTES = ['ctor', 'like_kw', 'template', 'deepcopy', 'like_method', 'fxp_of_fxp', 'add', 'mul_const', 'invert', 'and_mask', 'lshift', 'rshift_expand', 'rshift_keep', 'np_sum', 'np_add', 'neg', 'getitem']
+ROUTES = ['ctor', 'like_kw', 'template', 'deepcopy', 'like_method', 'fxp_of_fxp', 'add', 'mul_const', 'invert', 'and_mask', 'lshift', 'rshift_expand', 'rshift_keep', 'np_sum', 'np_add', 'neg', 'getitem',
+          'T', 'flatten', 'ravel', 'fxp_like', 'np_transpose', 'np_clip', 'abs', 'equal']
 # routes whose result shares the value buffer with its source (model Alias.v: only getitem)
 VIEW_ROUTES = {'getitem'}
 
@@ -49,6 +50,15 @@ def derive(fx, np, rng, route, pool):
     if route == 'np_sum': return np.sum(src), src
     if route == 'np_add': return np.add(src, src), src
     if route == 'neg': return -src, src
+    if route == 'T': return src.T, src
+    if route == 'flatten': return src.flatten(), src
+    if route == 'ravel': return src.ravel(), src
+    if route == 'fxp_like': return fx.fxp_like(src, [0.5, 0.25, -1.0] if np.asarray(src.val).ndim else 0.5), src
+    if route == 'np_transpose': return np.transpose(src), src
+    if route == 'np_clip': return np.clip(src, -1.0, 1.0), src
+    if route == 'abs': return abs(src), src
+    if route == 'equal':
+        d = fx.Fxp(np.asarray(src.get_val()) * 0, True, 16, 6); d.equal(src); return d, src
     if route == 'getitem': return src[0:2] if np.asarray(src.val).ndim > 0 and np.asarray(src.val).size >= 2 else src.deepcopy(), src
     raise ValueError(route)
 
@@ -147,6 +157,21 @@ def inputs_unchanged(rng, res):
         except Exception as e:
             res.fail({'container': name}, 'C20: building an object from a %s raised %s' % (name, lib.exc_name(e)), got=str(e)[:200])
 
+def clip_bounds_unchanged(res):
+    fx = lib.impl(); import numpy as np
+    for name, lo, hi in (('float arrays', np.array([0.25, 0.5, -1.0]), np.array([1.0, 1.5, 2.0])), ('int arrays', np.array([-1, 0, 1]), np.array([2, 2, 2])), ('scalars', -1.0, 1.0)):
+        for route in ('numpy', 'method', 'function'):
+            x = fx.Fxp([0.5, 3.0, -2.25], True, 16, 4); b = (copy.deepcopy(lo), copy.deepcopy(hi))
+            try:
+                if route == 'numpy': np.clip(x, lo, hi)
+                elif route == 'method': x.clip(lo, hi)
+                else: fx.clip(x, lo, hi)
+            except Exception as e:
+                res.fail({'clip': name, 'route': route}, 'C20: clip with %s bounds raised %s' % (name, lib.exc_name(e)), got=str(e)[:200]); continue
+            res.count('I:inputs', key=('clip', name, route), nontrivial=True)
+            if not (np.array_equal(b[0], lo) and np.array_equal(b[1], hi)):
+                res.fail({'clip': name, 'route': route}, 'C20: clip modified the arrays passed as bounds', expected=repr(b), got=repr((lo, hi))); break
+
 def invalid_config(rng, res):
     fx = lib.impl()
     bad = {'overflow': ['clip', 'Saturate', 1, None], 'rounding': ['nearest', 'Trunc', 0, None], 'shifting': ['grow', 'Expand', 3, None], 'op_input_size': ['big', 1],
@@ -175,7 +200,7 @@ def shard(shard, nshards, rng, tier, extra):
         run_history(random.Random(hseed), res, hseed)
     for _ in range(5): view_write_through(rng, res)
     if shard == 0:
-        inputs_unchanged(rng, res); invalid_config(rng, res)
+        inputs_unchanged(rng, res); clip_bounds_unchanged(res); invalid_config(rng, res)
     return res
 
 def run(seed, tier):
@@ -187,5 +212,6 @@ def replay(payload):
     if 'history' in c: run_history(random.Random(c['history']), res, c['history'])
     elif 'i' in c: view_write_through(random.Random(0), res); view_write_through(random.Random(1), res)
     elif 'container' in c: inputs_unchanged(None, res)
+    elif 'clip' in c: clip_bounds_unchanged(res)
     elif 'key' in c: invalid_config(None, res)
     return {'holds': not res.failures, 'failures': res.failures}
